@@ -1,42 +1,19 @@
-use cfr::verif::{Config, Event, Sampling};
-use vh::gen::{self, ParamSpec};
+use vh::gen::{self, chance, player, term, ParamSpec};
 use vh::solve::{self, Cfg, Outcome, Prepared};
 
 fn main() {
-    let k: usize = std::env::args().nth(1).unwrap().parse().unwrap();
-    let tree = gen::kuhn(5, false);
+    // the same chance infoset twice on one path: by the declared weights HH,HT,TH,TT have 1/4 each
+    let leaf = |x: f64| player(0, format!("d{}", x), vec![("l".into(), player(1, "g", vec![("a".into(), term(x)), ("b".into(), term(-x))])), ("r".into(), term(0.1 * x))]);
+    let inner = |a: f64, b: f64| chance(Some("c".into()), vec![(1.0, leaf(a)), (1.0, leaf(b))]);
+    let tree = chance(Some("c".into()), vec![(1.0, inner(1.0, -3.0)), (1.0, inner(-2.0, 0.5))]);
     let prep = Prepared::new(&tree).unwrap();
-    let mut first: Option<Vec<Event>> = None;
-    for threads in [1usize, k] {
-        let cfg = Cfg { method: cfr::SolveMethod::Full, iters: 3, max_reg: 0.0, threads, params: ParamSpec::Dcfr };
-        let out = match solve::run(&prep, &cfg, Some(Config { flags: solve::ALL_LOGS, sampling: Sampling::Production, jitter_seed: 0 })) {
-            Outcome::Ok(o) => o,
-            _ => panic!(),
-        };
-        let chk = solve::step_check(&prep, &cfg, &out, true);
-        print!("threads {} check {:?} bounds:", threads, chk.as_ref().map(|s| s.passes).map_err(|e| e.0.clone()));
-        for e in &out.events {
-            if let Event::Bound { pass, regs } = e {
-                print!(" p{}={:?}", pass, regs);
+    for m in gen::METHODS {
+        for t in [100u64, 1000, 10000] {
+            let cfg = Cfg { method: m, iters: t, max_reg: 0.0, threads: 1, params: ParamSpec::Dcfr };
+            if let Outcome::Ok(out) = solve::run(&prep, &cfg, None) {
+                let ev = vh::oracle::evaluate(&prep.flat, &out.profile);
+                println!("{} T={} true regret {:.5} bound {:.5}", gen::method_name(m), t, ev.total(), out.total_bound);
             }
         }
-        println!();
-        if let Some(f) = &first {
-            for (a, b) in f.iter().zip(out.events.iter().filter(|e| matches!(e, Event::State { .. }))) {
-                if let (Event::State { pass, stage, player, infosets: ia }, Event::State { infosets: ib, .. }) = (a, b) {
-                    for (i, (x, y)) in ia.iter().zip(ib.iter()).enumerate() {
-                        if x != y {
-                            println!("DIFF pass {} stage {} player {} infoset {}:\n  1: {:?}\n  k: {:?}", pass, stage, player, i, x, y);
-                        }
-                    }
-                }
-            }
-        } else {
-            first = Some(out.events.iter().filter(|e| matches!(e, Event::State { .. })).cloned().collect());
-        }
-        let out_events: Vec<Event> = out.events.iter().filter(|e| matches!(e, Event::State { .. })).cloned().collect();
-        let _ = out_events;
-        // first infoset state per pass
-
     }
 }
